@@ -183,7 +183,7 @@ func TestC38(t *testing.T) {
 		rng := r.Rng("c38/near")
 		for i := 0; i < 20000; i++ {
 			var s string
-			switch i % 4 {
+			switch i % 5 {
 			case 0:
 				b := make([]byte, 6)
 				for k := range b {
@@ -203,6 +203,20 @@ func TestC38(t *testing.T) {
 					b[k] = char6[rng.Intn(64)]
 				}
 				b[rng.Intn(len(b))] = []byte{' ', '-', 0, 0xff, '$', '/'}[rng.Intn(6)]
+				s = string(b)
+			case 3:
+				// high-bit twins: an inlineable string with bit 7 set on some bytes (any byte outside the alphabet
+				// must disable the inline encoding, whatever its low seven bits are)
+				b := make([]byte, rng.Range(1, 5))
+				for k := range b {
+					b[k] = char6[rng.Intn(64)]
+				}
+				if b[len(b)-1] == '.' {
+					b[len(b)-1] = 'a'
+				}
+				for n := rng.Range(1, len(b)); n > 0; n-- {
+					b[rng.Intn(len(b))] |= 0x80
+				}
 				s = string(b)
 			default:
 				s = strings.Repeat(".", rng.Range(1, 7))
@@ -224,6 +238,33 @@ func TestC38(t *testing.T) {
 				r.Violation("intern.value-roundtrip", "Value(Intern(s)) != s", "near/"+s, w)
 			}
 			r.Eval("near/" + s)
+		}
+	}
+
+	// every string of length 1-2 over the alphabet and its high-bit twins: ids of different strings differ, values round-trip
+	if r.Mine(1) {
+		var tw intern.Table
+		seen := map[intern.ID]string{}
+		sym := make([]byte, 0, 128)
+		for k := 0; k < 64; k++ {
+			sym = append(sym, char6[k], char6[k]|0x80)
+		}
+		check := func(s string) {
+			id := tw.Intern(s)
+			if prev, dup := seen[id]; dup && prev != s {
+				r.Violation("intern.not-injective", "two different strings share an id (one has a byte outside the alphabet)", "twin/"+s, map[string]any{"s": s, "other": prev, "id": int32(id)})
+			}
+			seen[id] = s
+			if v := tw.Value(id); v != s {
+				r.Violation("intern.value-roundtrip", "Value(Intern(s)) != s (string with a byte outside the alphabet)", "twin/"+s, map[string]any{"s": s, "id": int32(id), "value": v})
+			}
+			r.Eval("twin/" + s)
+		}
+		for _, a := range sym {
+			check(string([]byte{a}))
+			for _, b := range sym {
+				check(string([]byte{a, b}))
+			}
 		}
 	}
 
